@@ -287,6 +287,49 @@ func c11(c *Ctx) {
 		c.R.Check(lenOK && storeAll, load.FuncName(fn)+": versions", c.pos(fn.Pos()), "one generated version per XRD version, every index stored", "the CRD does not get exactly one generated version per XRD version")
 	}
 
+	c.R.Rule("R11.6", "the author's limit on metadata.name is honoured whenever it is set and stricter", 1,
+		"a limit the author set explicitly (0 included) is replaced by the default 63: the CRD admits names the XRD forbids")
+	if gen != nil {
+		isAuthorLimit := func(v ssa.Value) bool {
+			return flow.Default.Any(v, func(x ssa.Value) bool {
+				switch y := x.(type) {
+				case *ssa.FieldAddr:
+					return fieldName(y.X.Type(), y.Field) == "MaxLength"
+				case *ssa.Field:
+					return fieldName(y.X.Type(), y.Field) == "MaxLength"
+				}
+				return false
+			})
+		}
+		n, bad := 0, ""
+		for _, b := range gen.Blocks {
+			for _, in := range b.Instrs {
+				bo, ok := in.(*ssa.BinOp)
+				if !ok {
+					continue
+				}
+				switch bo.Op {
+				case token.LSS, token.LEQ, token.GTR, token.GEQ, token.EQL, token.NEQ:
+				default:
+					continue
+				}
+				for _, pr := range [][2]ssa.Value{{bo.X, bo.Y}, {bo.Y, bo.X}} {
+					if _, isPtr := pr[0].Type().Underlying().(*types.Pointer); isPtr {
+						continue // the nil test of the optional field
+					}
+					if !isAuthorLimit(pr[0]) {
+						continue
+					}
+					n++
+					if k, isC := cfgx.ConstInt(pr[1]); isC && k <= 0 {
+						bad = c.pos(bo.Pos())
+					}
+				}
+			}
+		}
+		c.R.Check(n > 0 && bad == "", load.FuncName(gen)+": author's name limit", c.pos(gen.Pos()), "the author's maxLength is compared with the default limit only", "the author's maxLength is also compared with a constant ≤ 0 (at "+bad+"): an explicit limit of 0 is treated as unset")
+	}
+
 	c.R.Rule("R11.3", "author constraints are carried", 9, "required lists, CEL rules, oneOf or preserve-unknown-fields of the XRD would be dropped from the CRD")
 	// … from the schema as the author wrote it: parseSchema decodes and does not edit
 	if ps := c.fn(pkgXCRD, "parseSchema"); ps != nil {
